@@ -396,6 +396,65 @@ def resolve_function(pkg, qualname):
     return cls, attr, "method"
 
 
+def install_case_monitors(pkg, registry, active, hits):
+    """Known findings (active cases of known_findings.txt) are defects of the tree that are already recorded.  While the
+    real code runs, note every call of a function that enters one of those recorded cases (guard evaluated on the
+    callee's own pre-state): a clause that then fails further up the call chain is a consequence of the recorded finding,
+    not a new violation, and is not reported as reproduced."""
+    import inspect
+    by_fn = {}
+    for oname, labels in (active or {}).items():
+        try:
+            if "/requires:" in oname:
+                callee, rest = oname.split("/requires:", 1)
+                reqname, caller = rest.split("@", 1)
+                cases = registry.get(caller).call_cases.get((callee, reqname), {})
+                q = caller
+            else:
+                q, clname = oname.split("/", 1)
+                con = registry.get(q)
+                cases = {}
+                for cl in list(con.ensures_) + list(getattr(con, "caller_view_", [])):
+                    if cl.name == clname:
+                        cases.update(cl.cases)
+        except Exception:
+            continue
+        for lb in labels:
+            if lb in cases:
+                by_fn.setdefault(q, []).append((lb, cases[lb]))
+    for q, guards in by_fn.items():
+        try:
+            cls, fn, kind = resolve_function(pkg, q)
+        except Exception:
+            continue
+        if cls is None or q.endswith(".setter"):
+            continue
+        name = q.split(".")[2]
+
+        def make(fn, guards, q, kind):
+            sig = inspect.signature(fn)
+
+            def wrapper(*a, **kw):
+                try:
+                    bound = sig.bind(*a, **kw)
+                    bound.apply_defaults()
+                    locs = dict(bound.arguments)
+                    fr = NFrame(locs.get("self"), locs, {})
+                    fr.old = fr
+                    for lb, g in guards:
+                        if bool(g(fr)):
+                            hits.append("%s case=%s" % (q, lb))
+                except Exception as e:  # noqa -- a guard that cannot be evaluated natively taints conservatively
+                    hits.append("%s guard not evaluable: %r" % (q, e))
+                return fn(*a, **kw)
+            wrapper.__wrapped__ = fn
+            return staticmethod(wrapper) if kind == "static" else wrapper
+        try:
+            setattr(cls, name, make(fn, guards, q, kind))
+        except Exception:
+            pass
+
+
 def replay(req):
     repo = req["repo"]
     sys.path.insert(0, repo)
@@ -435,9 +494,16 @@ def replay(req):
     old.a = NView(old.args)
     old.g = copy.deepcopy(ghost, memo)
     f.old = old
+    case_hits = []
+    install_case_monitors(pkg, REGISTRY, req.get("active_cases"), case_hits)
     cls, fn, kind = resolve_function(pkg, req["function"])
+    if kind != "function" and cls is not None and not req["function"].endswith(".setter"):
+        # pick up the monitored version of the function itself, if any
+        attr = cls.__dict__.get(req["function"].split(".")[2])
+        if attr is not None and not isinstance(attr, property):
+            fn = attr.__func__ if isinstance(attr, staticmethod) else attr
     import inspect
-    sig = inspect.signature(fn)
+    sig = inspect.signature(getattr(fn, "__wrapped__", fn))
     pos = []
     kw = {}
     for name, p in sig.parameters.items():
@@ -479,12 +545,22 @@ def replay(req):
         base = name.split("[")[0]
         suffix = name[len(base):]
         cands = [c for c in con.ensures_ if c.name == base]
-        if not cands and (base == "*" or not any(c.name == base for c in con.ensures_)):
-            cands = list(con.ensures_)          # not a post clause (loop lemma ...): probe every post clause
+        probe_all = False
+        if not cands and base == "*":
+            cands = list(con.ensures_)          # function outside the executor's subset: probe every post clause
             suffix = ""
+            probe_all = True
+        active = req.get("active_cases") or {}
         for cl in cands:
             try:
                 val = bool(cl.fn(f))
+                if probe_all and not val:
+                    # a recorded case of this very clause excuses the failure
+                    oldf0 = NFrame(f.old.self, f.old.args, f.old.g)
+                    oldf0.old = f.old
+                    for lb in active.get("%s/%s" % (req["function"], cl.name), []):
+                        if lb in cl.cases and bool(cl.cases[lb](oldf0)):
+                            val = True
                 # known-finding split: "[outside:a,b]" = clause or guard_a or guard_b ; "[inside:a]" = guard_a => clause
                 if suffix.startswith("[outside:") or suffix.startswith("[inside:"):
                     labels = suffix[suffix.index(":") + 1:-1].split(",")
@@ -505,6 +581,14 @@ def replay(req):
             except Exception as e:  # noqa
                 detail = "clause raised natively: %r" % (e,)
                 out["clause_traceback"] = traceback.format_exc().splitlines()[-6:]
+    if case_hits:
+        out["known_finding_cases_entered"] = sorted(set(case_hits))
+        if reproduced and "[inside:" not in name:
+            # the run went through a recorded known-finding case: a failing clause here is its consequence
+            reproduced = False
+            detail = "not counted: the run entered a recorded known-finding case (%s); %s" % (
+                ", ".join(sorted(set(case_hits))[:3]), detail)
+            out.pop("failed_clause", None)
     out["reproduced"] = reproduced
     out["detail"] = detail
     return out
